@@ -4,9 +4,9 @@ from vv.registry import PROPS, COMMON_ASSUME, rc, py
 harness("h_c13", ["harness/h_c13.cc"], libs=("csg",))
 
 PROPS["C13"] = dict(
-    parts=[rc("h_c13", quick=dict(cases=60000, procs=4, args=["--enum", "6"], budget_s=600),
+    parts=[rc("h_c13", quick=dict(cases=160000, procs=8, args=["--enum", "6"], budget_s=600),
               thorough=dict(cases=3000000, procs=16, args=["--enum", "12"], budget_s=1800)),
-           py("vv.exe_c13", quick=dict(cases=800, procs=4, budget_s=600),
+           py("vv.exe_c13", quick=dict(cases=1600, procs=8, budget_s=600),
               thorough=dict(cases=40000, procs=16, budget_s=1800))],
     repo_targets=("votca_tools", "votca_csg", "csg_density"),
     rule=("histnew (library, HistogramNew): generated (min,max,nbins) incl. nbins=1,2, min>0/<0/=0, ranges 1e-9..2e300, periodic on/off; "
